@@ -233,3 +233,22 @@ pub fn vdivsmall(a: &[u64], d: u64) -> Vec<u64> {
     }
     trim(q)
 }
+
+/// floor(a / b) for b != 0, by shift and subtract (generator-side reference arithmetic, not performance critical)
+pub fn vdiv(a: &[u64], b: &[u64]) -> Vec<u64> {
+    let b = trim(b.to_vec());
+    assert!(!b.is_empty());
+    let mut q = vec![0u64; a.len().max(1)];
+    let mut rem: Vec<u64> = vec![];
+    for i in (0..vbits(a)).rev() {
+        rem = vshl(&rem, 1);
+        if rem.is_empty() { rem = vec![0]; }
+        rem[0] |= (a[i / 64] >> (i % 64)) & 1;
+        rem = trim(rem);
+        if !vcmp(&rem, &b).is_lt() {
+            rem = trim(vsub(&rem, &b));
+            q[i / 64] |= 1 << (i % 64);
+        }
+    }
+    trim(q)
+}
